@@ -21,26 +21,103 @@ from contracts.blocks_tasks import setup_engine, run_guarded, ENGINE_MODES
 STEP_Q = "sym_metanet.network:Network.step"
 
 
-class InitCond:
-    """the init_conditions argument: a mapping; .get(el) is the entry of that element"""
+name_of = T.uf("element.name", [T.REF], T.INT)  # names are opaque tokens; two elements may share one
+ic_key = T.uf("init_conditions.key", [T.INT], T.REF)
 
-    def __init__(self):
+
+class InitCond:
+    """the init_conditions argument: a mapping keyed by elements; .get(el) is the entry of that element.
+    An entry is identified by the element whose entry it is (a Ref term)."""
+
+    def __init__(self, net=None):
         self.gets = []
+        self.net = net
 
     def pyvc_getattr(self, interp, name):
-        from pyvc.values import Builtin
+        from pyvc.values import Builtin, SSeq
 
         if name == "get":
             def get(it, a, k):
-                tok = ("init_conditions.get", a[0].term if isinstance(a[0], ObjRef) else repr(a[0]))
+                if not isinstance(a[0], ObjRef):
+                    raise Unsupported(f"init_conditions.get with a key that is not an element: {a[0]!r}")
+                tok = ("init_conditions.get", a[0].term)
                 self.gets.append(tok)
                 return _Entry(tok)
 
             return Builtin("init_conditions.get", get)
+        if name == "items" and self.net is not None:
+            n = T.fresh("n_init_conditions", T.INT)
+            cur().axiom(T.le(0, n))
+            net = self.net
+            return Builtin("init_conditions.items", lambda it, a, k: SSeq(n, lambda j: (net.heap.ref(ic_key(j), G.LINK_CLASSES + G.ORIGIN_CLASSES + G.DEST_CLASSES),
+                                                                                      _Entry(("init_conditions.item", ic_key(j)))), "init_conditions.items()"))
         raise Unsupported(f"init_conditions.{name}")
 
     def pyvc_is_none(self):
         return False
+
+    def pyvc_truth(self, interp):
+        if not hasattr(self, "_nonempty"):
+            self._nonempty = T.fresh("init_conditions_nonempty", T.BOOL)
+        return self._nonempty
+
+
+class ReKeyed:
+    """a dict built from init_conditions.items() by a comprehension: entries re-keyed by the element
+    itself or by its name.  A lookup by name finds the entry of *some* element with that name (the last
+    one inserted) - names are not unique"""
+
+    by_name = T.uf("init_conditions.last_key_named", [T.INT], T.REF)
+
+    def __init__(self, kind):
+        self.kind = kind
+
+    def pyvc_getattr(self, interp, name):
+        from pyvc.values import Builtin, SymName
+
+        if name == "get":
+            def get(it, a, k):
+                key = a[0]
+                if self.kind == "element" and isinstance(key, ObjRef):
+                    return _Entry(("init_conditions.get", key.term))
+                if self.kind == "name" and isinstance(key, SymName) and isinstance(key.owner, T.Term):
+                    nm = name_of(key.owner)
+                    other = ReKeyed.by_name(nm)
+                    cur().axiom(T.eq(name_of(other), nm))
+                    return _Entry(("init_conditions.get-by-name", other))
+                raise Unsupported(f"lookup in the re-keyed init_conditions with {key!r}")
+
+            return Builtin("rekeyed.get", get)
+        raise Unsupported(f"re-keyed init_conditions.{name}")
+
+    def pyvc_is_none(self):
+        return False
+
+
+def ic_comp_rule(it, node, seq, env, kind):
+    """{key(el): ic for el, ic in init_conditions.items()}"""
+    from pyvc.loops import _child_env
+    from pyvc.values import SymName
+
+    if kind != "dict" or not getattr(seq, "desc", "").startswith("init_conditions.items"):
+        raise Unsupported("dict / filtered comprehension over a symbolic sequence")
+    g = node.generators[0]
+    if g.ifs:
+        raise Unsupported("filtered comprehension over init_conditions")
+    e2 = _child_env(it, env)
+    e2.vars.update(env.vars)
+    J = T.fresh("ic_j", T.INT)
+    item = seq.elem(J)
+    it.assign(g.target, item, e2)
+    k = it.eval(node.key, e2)
+    v = it.eval(node.value, e2)
+    if v is not item[1]:
+        raise Unsupported("init_conditions re-keyed with changed entries")
+    if isinstance(k, ObjRef) and k.term is item[0].term:
+        return ReKeyed("element")
+    if isinstance(k, SymName) and k.owner is item[0].term:
+        return ReKeyed("name")
+    raise Unsupported(f"init_conditions re-keyed by {k!r}")
 
 
 class _Entry:
@@ -113,7 +190,8 @@ def net_step_task(mode, ic_given):
         base = interp.load_module("sym_metanet.blocks.base").ns["ElementWithVars"]
         interp.contracts[base.ns["step"].qualname] = EventContract("step")
         net = G.GhostNet(interp)
-        ic = InitCond() if ic_given else None
+        ic = InitCond(net) if ic_given else None
+        interp.comp_rule = ic_comp_rule
         names = ("positive_init_speed", "positive_init_density", "positive_init_queue", "positive_next_speed", "positive_next_density", "positive_next_queue")
         flags = {f: T.var(f, T.BOOL) for f in names}
         others = {"T": T.var("T", T.REAL), "tau": T.var("tau", T.REAL), "eta": T.var("eta", T.REAL), "kappa": T.var("kappa", T.REAL), "delta": T.var("delta", T.REAL)}
@@ -154,10 +232,10 @@ def net_step_task(mode, ic_given):
             c.oblige("post", "init_vars receives no other flag or parameter", T.const(set(kw) <= {"init_conditions", "engine", *names[:3]}), assume_after=False)
             entry = kw.get("init_conditions")
             if ic_given:
-                okk = isinstance(entry, _Entry) and entry.tok[1] is el.term
+                okk = T.eq(entry.tok[1], el.term) if isinstance(entry, _Entry) and isinstance(entry.tok[1], T.Term) else T.FALSE
             else:
-                okk = entry is None
-            c.oblige("post", "init_vars receives this element's own entry of init_conditions (None if there is none)", T.const(okk), assume_after=False)
+                okk = T.const(entry is None)
+            c.oblige("post", "init_vars receives this element's own entry of init_conditions (None if there is none)", okk, assume_after=False)
             c.oblige("post", "init_vars receives the engine argument of step unchanged", T.const(kw.get("engine") is eng), assume_after=False)
         # loop 1: every origin with states is stepped
         b1 = body_events(1)
@@ -203,7 +281,7 @@ def net_step_task(mode, ic_given):
             if eff[0] in ("global-write", "attr-write"):
                 c.oblige("frame", "Network.step writes nothing itself (only through init_vars / step of the elements)", T.FALSE, assume_after=False)
 
-    return Task(f"{STEP_Q}<{label}>", run, props=("C01", "C07", "C11", "C12", "C13"), func=STEP_Q, config=label)
+    return Task(f"{STEP_Q}<{label}>", run, props=("C01", "C07", "C11", "C12", "C13", "C14", "C18"), func=STEP_Q, config=label)
 
 
 def all_tasks():
